@@ -44,6 +44,11 @@ def expand_name(line: str, char_pos: int) -> str:
     # The order here is important.
     # WORD will capture substrings in logical
     code_line = "".join(code)
+    # The kind parameter of a numeric literal (1.0_dp, 0.5e1_dp, 42_int64) is the
+    # name after the underscore
+    for kind_match in FRegex.KIND_SUFFIX.finditer(code_line):
+        if kind_match.start(1) <= char_pos <= kind_match.end(1):
+            return kind_match.group(1)
     regexs = [
         FRegex.LOGICAL,
         FRegex.WORD,
